@@ -98,6 +98,7 @@ def run(chk):
     chk.rule("R2", "checks on nested constructs iterate a subtree traversal; iter_children and map_children cover the same attributes")
     chk.rule("R3", "eager validation: ColFn / CaseExpr / Cast constructors call dtype(); preprocess_arg forces dtype() and ftype()")
     chk.rule("R1t", "Table column access interpreted on a stub cache (visible / hidden / foreign columns, names, C.name, references): documented result or ColumnNotFoundError")
+    chk.rule("R1m", "wrap_literals interpreted: an ordering marker is accepted only at the root of an expression; function-type conflicts raise FunctionTypeError (CaseExpr.ftype / ColFn.ftype scenarios)")
     chk.rule("R4", "no exception object is constructed and then dropped")
     chk.rule("R5", "identity-map lookups cannot raise a bare KeyError (K2); internal `assert isinstance` holds for every resolved caller (A16)")
     chk.rule("R6", "errors raised by a verb carry the documented public exception types (errors module) and leave the input untouched")
@@ -143,6 +144,11 @@ def run(chk):
                f"rule instance `{iid}`: `{fq}` has no `raise {exc}` controlled by a test mentioning {needles}: {what} is no longer "
                "rejected by the verb call with the documented exception")  # fmt: skip
     chk.floor("R1", "rule instances", len(INSTANCES), 23)
+
+    from .. import colexprsim
+    from ..model import model_of as _mo
+
+    colexprsim.report(chk, _mo(chk), "R1m", ["wrap_literals", "CaseExpr.ftype", "ColFn.ftype"], floor=200)
 
     _verb_scenarios(chk)
 
